@@ -123,6 +123,12 @@ def answer(line):
         v = oligo(k).vectorise_one(s, norm)
         d = oligo(k).vectorise_one(s) if norm else v  # default argument = normalised
         return ",".join(bits(x) for x in v) + "|" + ("1" if [bits(x) for x in d] == [bits(x) for x in v] else "0")
+    if op == "oligobig":
+        # one very long sequence given run-length encoded: byte*count+byte*count...
+        k, norm = int(w[1]), w[2] == "1"
+        s = "".join(chr(int(b)) * int(n) for b, n in (part.split("*") for part in w[3].split("+")))
+        v = oligo(k).vectorise_one(s, norm)
+        return ",".join(bits(x) for x in v) + "|1"
     if op == "header":
         k = int(w[1])
         return ",".join(h.encode().hex() for h in oligo(k).get_header())
